@@ -36,7 +36,6 @@ USED = {"hdd_tidd_cdd_smooth": FIELDS, "hdd_tidd_cdd": ["hdd_bp", "hdd_beta", "c
         "hdd_tidd_smooth": ["hdd_bp", "hdd_beta", "hdd_k"], "tidd_cdd_smooth": ["cdd_bp", "cdd_beta", "cdd_k"],
         "hdd_tidd": ["hdd_bp", "hdd_beta"], "tidd_cdd": ["cdd_bp", "cdd_beta"], "tidd": []}
 CORNER = "bp_h' == bp_c' >= T_max"
-CROSSED = "bp_h' > bp_c' by rounding, sum pct_k >= 1"
 
 
 # ------------------------------------------------------------------ generator
@@ -235,6 +234,8 @@ def stored_view(doc):
                 ph, pc = ph / tot, pc / tot
             hk, ck = ph * (cb - hb), pc * (cb - hb)
             hbp, cbp = hb + hk, cb - ck
+            if hb <= cb and cbp < hbp:      # the shifted balance points meet, they never cross (documented since 742a3de4)
+                cbp = hbp
         return {"bh": bh, "bc": bc, "hbp": hbp, "cbp": cbp, "hk": hk, "ck": ck, "lower": hb, "upper": cb,
                 "bh_stored": doc["hdd_beta"], "bc_stored": doc["cdd_beta"]}
     if s in ("hdd_tidd_smooth", "hdd_tidd"):
@@ -255,13 +256,6 @@ def in_corner(doc, v):
     return v["hbp"] == v["cbp"] and v["cbp"] >= doc["tc"][1] and (v["bh"] != 0 or v["bc"] != 0)
 
 
-def is_crossed(doc, v):
-    """ordered stored balance points whose shifted images cross in binary64 (they meet exactly over the reals
-    when the smoothing fractions add up to one or more: C11_smooth_coeffs_order)"""
-    return (doc["shape"] == "hdd_tidd_cdd_smooth" and v["lower"] <= v["upper"] and v["hbp"] > v["cbp"]
-            and doc["hdd_k"] + doc["cdd_k"] >= 1 - 1e-9)
-
-
 def smoothed_side(beta, k, d, ln_min):
     """documented smoothed hinge at distance d >= 0 beyond the (shifted) balance point"""
     if k == 0 or beta == 0:
@@ -274,7 +268,6 @@ def oracle(doc, rows, ln_min):
     v = stored_view(doc)
     icpt = doc["intercept"]
     corner = in_corner(doc, v)
-    crossed = is_crossed(doc, v)
     t_max = doc["tc"][1]
     bmax = max(v["bh_stored"], v["bc_stored"], 0.0)
     scale = max([1.0, abs(icpt), bmax * 200.0] + [abs(r[1]) for r in rows if math.isfinite(r[1])])
@@ -283,7 +276,7 @@ def oracle(doc, rows, ln_min):
 
     def fail(clause, T, msg, **detail):
         sig = {"clause": clause, "shape": doc["shape"], "corner": CORNER if corner else "no",
-               "crossed": CROSSED if crossed else "no", "T": "> T_max" if T > t_max else "<= T_max"}
+               "T": "> T_max" if T > t_max else "<= T_max"}
         key = json.dumps(sig, sort_keys=True)
         if key not in fails:
             fails[key] = (sig, msg, dict(detail, T=T))
@@ -403,7 +396,7 @@ def stream_predict(run, docs, ntemps, ln_min, stream="predict"):
         run.count(vlib.sha([doc, len(ts)]), nontrivial)
         run.cov["temperature_evaluations"] = run.cov.get("temperature_evaluations", 0) + len(ts)
         run.dist("shape", doc["shape"])
-        run.dist("regime", ("corner " if corner else "") + ("rounding-crossed " if is_crossed(doc, v) else "") + ("smoothed" if smooth else "unsmoothed") +
+        run.dist("regime", ("corner " if corner else "") + ("smoothed" if smooth else "unsmoothed") +
                  (" equal-bp" if v["hbp"] == v["cbp"] else ""))
         if doc["shape"] == "hdd_tidd_cdd_smooth":
             tot = doc["hdd_k"] + doc["cdd_k"]
@@ -515,7 +508,7 @@ def stream_exp(run, n):
 
 
 def corner_docs():
-    """the refuted witness of Properties/C11.v (hdd_tidd, bp = T_max = 70) and its relatives"""
+    """the refuted witness of Properties/C11.v (hdd_tidd, bp = T_max = 70), its relatives, and the old C11-F2 witness"""
     base = {f: None for f in FIELDS}
     tc = [10.0, 70.0, 10.0, 70.0]
     temps = [50.0, 69.0, 70.0, float(np.nextafter(70.0, np.inf)), 71.0, 95.0, 120.0, 140.0]
@@ -526,6 +519,11 @@ def corner_docs():
         dict(base, shape="hdd_tidd_cdd_smooth", intercept=20.0, hdd_bp=50.0, hdd_beta=1.0, hdd_k=1.0, cdd_bp=70.0,
              cdd_beta=1.0, cdd_k=0.0, tc=tc, temps=temps),
         dict(base, shape="tidd_cdd", intercept=20.0, cdd_bp=70.0, cdd_beta=1.0, tc=tc, temps=temps),
+        # old witness of C11-F2 (fixed by /repo 742a3de4): the shifted balance points met and crossed by an ulp
+        dict(base, shape="hdd_tidd_cdd_smooth", intercept=58.7183076539315, hdd_bp=12.106478702938013,
+             hdd_beta=1.6807497093904664, hdd_k=0.4126133326537498, cdd_bp=16.12505849339802, cdd_beta=5.324197379481124,
+             cdd_k=0.6380378622932393, tc=[10.106478702938013, 84.0, 12.106478702938013, 82.8597945255392],
+             temps=[-60.0, 0.0, 12.0, 13.5, 14.0, 16.0, 50.0, 84.0, 100.0]),
     ]
     return out
 
